@@ -113,43 +113,62 @@ def getPeersReq (l : Lookup) : Req := .getPeers l.selfId l.target none
 /-- `local_request()` on the routing-table entry of `h`, if it is listed -/
 def markRequested (t : Table) (h : Handle) (now : Nat) : Table := (t.modifyNode h now (fun n => n.localRequest now)).1
 
+/-- accumulator of a round: lookup, environment, effects so far, number of queries that went out -/
+structure RoundAcc where
+  l : Lookup
+  env : LEnv
+  effs : List Effect
+  sent : Nat
+
+/-- one iteration of the loop of `start_request_round` -/
+def requestStep (acc : RoundAcc) (hd : Handle × Bytes) : RoundAcc :=
+  let l := acc.l
+  let env := acc.env
+  let tid : Tid := ⟨l.aid, l.nextSeq⟩
+  let sched := env.timer.scheduleAt (env.now + Constants.LOOKUP_TIMEOUT_ns) (.lookupTimeout tid)
+  let l := { l with nextSeq := l.nextSeq + 1, active := (l.active.filter (·.1 ≠ tid)) ++ [(tid, hd.2, sched.2)] }
+  let env := { env with timer := sched.1 }
+  if env.sendFails hd.1.addr then
+    { l := l, env := env, effs := acc.effs ++ [.send hd.1.addr tid (getPeersReq l) false], sent := acc.sent }
+  else
+    { l := { l with requested := if l.requested.contains hd.1 then l.requested else l.requested ++ [hd.1] },
+      env := { env with table := markRequested env.table hd.1 env.now },
+      effs := acc.effs ++ [.send hd.1.addr tid (getPeersReq l) true], sent := acc.sent + 1 }
+
 /-- `start_request_round(nodes)`: returns the lookup, environment and effects -/
 def Lookup.requestRound (l : Lookup) (env : LEnv) (nodes : List (Handle × Bytes)) : Lookup × LEnv × List Effect :=
-  let (l, env, effs, sent) := nodes.foldl (fun (acc : Lookup × LEnv × List Effect × Nat) (hd : Handle × Bytes) =>
-    let (l, env, effs, sent) := acc
-    let (h, dist) := hd
+  let acc := nodes.foldl requestStep { l := l, env := env, effs := [], sent := 0 }
+  if acc.sent = 0 then ({ acc.l with active := [] }, acc.env, acc.effs) else (acc.l, acc.env, acc.effs)
+
+/-- accumulator of the end-game round: lookup, environment, effects, rebuilt candidate list -/
+structure EndAcc where
+  l : Lookup
+  env : LEnv
+  effs : List Effect
+  out : List (Bytes × Handle × Bool)
+
+/-- one iteration of the loop of `start_endgame_round` over the candidate list (`key` = the shared end-game timer) -/
+def endgameStep (key : Nat × Nat) (acc : EndAcc) (e : Bytes × Handle × Bool) : EndAcc :=
+  if e.2.2 then { acc with out := acc.out ++ [e] }
+  else
+    let l := acc.l
     let tid : Tid := ⟨l.aid, l.nextSeq⟩
-    let (timer, key) := env.timer.scheduleAt (env.now + Constants.LOOKUP_TIMEOUT_ns) (.lookupTimeout tid)
-    let l := { l with nextSeq := l.nextSeq + 1, active := (l.active.filter (·.1 ≠ tid)) ++ [(tid, dist, key)] }
-    let env := { env with timer := timer }
-    if env.sendFails h.addr then (l, env, effs ++ [.send h.addr tid (getPeersReq l) false], sent)
+    let l := { l with nextSeq := l.nextSeq + 1, active := (l.active.filter (·.1 ≠ tid)) ++ [(tid, e.1, key)] }
+    if acc.env.sendFails e.2.1.addr then
+      { l := l, env := acc.env, effs := acc.effs ++ [.send e.2.1.addr tid (getPeersReq l) false], out := acc.out ++ [e] }
     else
-      let l := { l with requested := if l.requested.contains h then l.requested else l.requested ++ [h] }
-      let env := { env with table := markRequested env.table h env.now }
-      (l, env, effs ++ [.send h.addr tid (getPeersReq l) true], sent + 1)) (l, env, [], 0)
-  if sent = 0 then ({ l with active := [] }, env, effs) else (l, env, effs)
+      { l := l, env := { acc.env with table := markRequested acc.env.table e.2.1 acc.env.now },
+        effs := acc.effs ++ [.send e.2.1.addr tid (getPeersReq l) true], out := acc.out ++ [(e.1, e.2.1, true)] }
 
 /-- `start_endgame_round` -/
 def Lookup.endgameRound (l : Lookup) (env : LEnv) : Lookup × LEnv × List Effect :=
   let egTid : Tid := ⟨l.aid, l.nextSeq⟩
-  let (timer, key) := env.timer.scheduleAt (env.now + Constants.ENDGAME_TIMEOUT_ns) (.lookupEndGame egTid)
+  let sched := env.timer.scheduleAt (env.now + Constants.ENDGAME_TIMEOUT_ns) (.lookupEndGame egTid)
   let l := { l with inEndgame := true, nextSeq := l.nextSeq + 1 }
-  let env := { env with timer := timer }
+  let env := { env with timer := sched.1 }
   -- every node that was not queried yet
-  let (l, env, effs, sorted) := l.sorted.foldl
-    (fun (acc : Lookup × LEnv × List Effect × List (Bytes × Handle × Bool)) (e : Bytes × Handle × Bool) =>
-      let (l, env, effs, out) := acc
-      let (dist, h, req) := e
-      if req then (l, env, effs, out ++ [e])
-      else
-        let tid : Tid := ⟨l.aid, l.nextSeq⟩
-        let l := { l with nextSeq := l.nextSeq + 1, active := (l.active.filter (·.1 ≠ tid)) ++ [(tid, dist, key)] }
-        if env.sendFails h.addr then (l, env, effs ++ [.send h.addr tid (getPeersReq l) false], out ++ [e])
-        else
-          let env := { env with table := markRequested env.table h env.now }
-          (l, env, effs ++ [.send h.addr tid (getPeersReq l) true], out ++ [(dist, h, true)]))
-    (l, env, [], [])
-  ({ l with sorted := sorted }, env, effs)
+  let acc := l.sorted.foldl (endgameStep sched.2) { l := l, env := env, effs := [], out := [] }
+  ({ acc.l with sorted := acc.out }, acc.env, acc.effs)
 
 /-- `current_lookup_status() == Completed` -/
 def Lookup.completedNow (l : Lookup) : Bool := !l.inEndgame && l.active.isEmpty
@@ -167,44 +186,61 @@ def Lookup.new (aid stream : Nat) (selfId : Bytes) (v6 : Bool) (target : Bytes) 
                       stream := stream }
   l.requestRound env (picks.map fun (_, h, _) => (h, xorBytes h.id target))
 
+/-- remember the announce token of the responder (the latest one wins; over-long tokens are ignored) -/
+def Lookup.recordToken (l : Lookup) (from_ : Handle) (tok? : Option Bytes) : Lookup :=
+  match tok? with
+  | some tok =>
+    if tok.length ≤ Constants.MAX_TOKEN_LEN then { l with tokens := (l.tokens.filter (·.1 ≠ from_)) ++ [(from_, tok)] }
+    else l
+  | none => l
+
+/-- the candidate bookkeeping of `recv_response`: the named nodes go into the sorted list; if one of
+the not-yet-queried ones beats the distance, up to `ITERATIVE_PICK_NUM` of them are picked -/
+def Lookup.absorbNodes (l : Lookup) (nodes : List Handle) (distToBeat : Bytes) :
+    Lookup × Option (List (Handle × Bool)) × Bytes :=
+  if nodes.isEmpty then (l, none, distToBeat) else
+    let fresh := nodes.filter (fun n => !l.requested.contains n)
+    let nextDist := fresh.foldl (fun closest n =>
+      let d := xorBytes l.target n.id
+      if bytesLtB d closest then d else closest) distToBeat
+    if bytesLtB nextDist distToBeat then
+      let picks := pickIterate fresh l.target
+      let sorted := nodes.foldl (fun acc n => insertSorted acc l.target n (picks.any (fun p => p.1 = n))) l.sorted
+      ({ l with sorted := sorted }, some picks, nextDist)
+    else
+      let sorted := nodes.foldl (fun acc n => insertSorted acc l.target n false) l.sorted
+      ({ l with sorted := sorted }, none, nextDist)
+
+/-- the iterative round of `recv_response`: query the used picks, all with the new distance to beat -/
+def Lookup.iterRound (l : Lookup) (env : LEnv) (iterate : Option (List (Handle × Bool))) (nextDist : Bytes) :
+    Lookup × LEnv × List Effect :=
+  match iterate with
+  | some picks => l.requestRound env ((picks.filter (fun (p : Handle × Bool) => p.2)).map fun (p : Handle × Bool) => (p.1, nextDist))
+  | none => (l, env, [])
+
+/-- outside the end-game: query the picked nodes; when nothing is outstanding any more, start the end-game -/
+def Lookup.continueSearch (l : Lookup) (env : LEnv) (iterate : Option (List (Handle × Bool))) (nextDist : Bytes) :
+    Lookup × LEnv × List Effect :=
+  if !l.inEndgame then
+    let r1 := l.iterRound env iterate nextDist
+    if r1.1.active.isEmpty then
+      let r2 := r1.1.endgameRound r1.2.1
+      (r2.1, r2.2.1, r1.2.2 ++ r2.2.2)
+    else r1
+  else (l, env, [])
+
 /-- `recv_response(node, trans_id, msg)`; the handler has already offered the responder and the
 named nodes to the routing table -/
 def Lookup.recvResponse (l : Lookup) (env : LEnv) (from_ : Handle) (tid : Tid) (rsp : Resp) : Lookup × LEnv × List Effect :=
   match l.active.find? (·.1 = tid) with
   | none => (l, env, [])
-  | some (_, distToBeat, key) =>
-    let l := { l with active := l.active.filter (·.1 ≠ tid) }
-    let env := if !l.inEndgame then { env with timer := (env.timer.cancel key).1 } else env
-    let l := match rsp.token with
-      | some tok =>
-        if tok.length ≤ Constants.MAX_TOKEN_LEN then { l with tokens := (l.tokens.filter (·.1 ≠ from_)) ++ [(from_, tok)] }
-        else l
-      | none => l
-    let nodes := if l.v6 then rsp.nodes6 else rsp.nodes4
-    let (l, iterate, nextDist) : Lookup × Option (List (Handle × Bool)) × Bytes :=
-      if nodes.isEmpty then (l, none, distToBeat) else
-        let fresh := nodes.filter (fun n => !l.requested.contains n)
-        let nextDist := fresh.foldl (fun closest n =>
-          let d := xorBytes l.target n.id
-          if bytesLtB d closest then d else closest) distToBeat
-        if bytesLtB nextDist distToBeat then
-          let picks := pickIterate fresh l.target
-          let sorted := nodes.foldl (fun acc n => insertSorted acc l.target n (picks.any (fun p => p.1 = n))) l.sorted
-          ({ l with sorted := sorted }, some picks, nextDist)
-        else
-          let sorted := nodes.foldl (fun acc n => insertSorted acc l.target n false) l.sorted
-          ({ l with sorted := sorted }, none, nextDist)
-    let (l, env, effs) :=
-      if !l.inEndgame then
-        let (l, env, e1) := match iterate with
-          | some picks => l.requestRound env ((picks.filter (fun (p : Handle × Bool) => p.2)).map fun (p : Handle × Bool) => (p.1, nextDist))
-          | none => (l, env, [])
-        if l.active.isEmpty then
-          let (l, env, e2) := l.endgameRound env
-          (l, env, e1 ++ e2)
-        else (l, env, e1)
-      else (l, env, [])
-    (l, env, effs ++ rsp.values.map (fun a => .yield l.stream a))
+  | some entry =>
+    let l1 := { l with active := l.active.filter (·.1 ≠ tid) }
+    let env1 := if !l1.inEndgame then { env with timer := (env.timer.cancel entry.2.2).1 } else env
+    let l2 := l1.recordToken from_ rsp.token
+    let absorbed := l2.absorbNodes (if l2.v6 then rsp.nodes6 else rsp.nodes4) entry.2.1
+    let r := absorbed.1.continueSearch env1 absorbed.2.1 absorbed.2.2
+    (r.1, r.2.1, r.2.2 ++ rsp.values.map (fun a => .yield l.stream a))
 
 /-- `recv_timeout(trans_id)` -/
 def Lookup.recvTimeout (l : Lookup) (env : LEnv) (tid : Tid) : Lookup × LEnv × List Effect :=
@@ -214,22 +250,26 @@ def Lookup.recvTimeout (l : Lookup) (env : LEnv) (tid : Tid) : Lookup × LEnv ×
     let l := { l with active := l.active.filter (·.1 ≠ tid) }
     if !l.inEndgame && l.active.isEmpty then l.endgameRound env else (l, env, [])
 
+/-- one `announce_peer` of `recv_finished` -/
+def announceStep (port : Option Nat) (acc : Lookup × LEnv × List Effect) (e : Bytes × Handle × Bool) : Lookup × LEnv × List Effect :=
+  let l := acc.1
+  let env := acc.2.1
+  let h := e.2.1
+  let tid : Tid := ⟨l.aid, l.nextSeq⟩
+  let tok := ((l.tokens.find? (·.1 = h)).map (·.2)).getD []
+  let l := { l with nextSeq := l.nextSeq + 1 }
+  let req := Req.announce l.selfId l.target port tok
+  if env.sendFails h.addr then (l, env, acc.2.2 ++ [.send h.addr tid req false])
+  else (l, { env with table := markRequested env.table h env.now }, acc.2.2 ++ [.send h.addr tid req true])
+
+/-- the nodes `recv_finished` announces to: the closest `ANNOUNCE_PICK_NUM` candidates holding a token -/
+def Lookup.announceTargets (l : Lookup) : List (Bytes × Handle × Bool) :=
+  (l.sorted.filter (fun e => l.tokens.any (·.1 = e.2.1))).take Constants.ANNOUNCE_PICK_NUM
+
 /-- `recv_finished(port)`: the announces, then the stream is closed (the sender is dropped) -/
 def Lookup.recvFinished (l : Lookup) (env : LEnv) (port : Option Nat) : Lookup × LEnv × List Effect :=
-  let (l, env, effs) :=
-    if l.willAnnounce then
-      let targets := (l.sorted.filter (fun e => l.tokens.any (·.1 = e.2.1))).take Constants.ANNOUNCE_PICK_NUM
-      targets.foldl (fun (acc : Lookup × LEnv × List Effect) (e : Bytes × Handle × Bool) =>
-        let (l, env, effs) := acc
-        let h := e.2.1
-        let tid : Tid := ⟨l.aid, l.nextSeq⟩
-        let tok := ((l.tokens.find? (·.1 = h)).map (·.2)).getD []
-        let l := { l with nextSeq := l.nextSeq + 1 }
-        let req := Req.announce l.selfId l.target port tok
-        if env.sendFails h.addr then (l, env, effs ++ [.send h.addr tid req false])
-        else (l, { env with table := markRequested env.table h env.now }, effs ++ [.send h.addr tid req true]))
-        (l, env, [])
-    else (l, env, [])
-  ({ l with active := [], inEndgame := false }, env, effs ++ [.close l.stream])
+  let res : Lookup × LEnv × List Effect :=
+    if l.willAnnounce then l.announceTargets.foldl (announceStep port) (l, env, []) else (l, env, [])
+  ({ res.1 with active := [], inEndgame := false }, res.2.1, res.2.2 ++ [.close l.stream])
 
 end Btdht
